@@ -77,6 +77,7 @@ type Context struct {
 	envelop       vivid.Envelop                      // 当前 ActorContext 的消息
 	state         int32                              // 状态
 	zombie        bool                               // 是否为僵尸状态
+	released      bool                               // 僵尸是否已被释放（仅在自身消息处理协程中访问）
 	restarting    *RestartMessage                    // 正在重启的消息
 	watchers      map[string]vivid.ActorRef          // 正在监听该 Actor 终止事件的 ActorRef，其中 key 为 ActorRef 的完整路径
 	stash         []vivid.Envelop                    // 暂存区
@@ -617,6 +618,12 @@ func (c *Context) onKilled(message *vivid.OnKilled, behavior vivid.Behavior) {
 		if !message.Ref.Equals(c.ref) {
 			return
 		}
+		// 僵尸的释放同样只能发生一次：健康的 Actor 由 running→killing 的 CAS 保证终止流程只进入一次，僵尸跳过了该 CAS，
+		// 若第二个 Kill 经由缓存了邮箱的引用到达，释放流程会再次执行（重复的 OnKilled、重复的事件、再次删除可能已被同名新 Actor 占用的注册项）
+		if c.released {
+			return
+		}
+		c.released = true
 		handler.shouldContinue = true
 		handler.prepareSelfKilledMessage()
 		handler.restarting = false
